@@ -70,7 +70,33 @@ def gen(seed, tier):
             o["U"] = 1
         cases.append(("C15-%d" % n, "C", opts_str(o), seg(0, build_table(g))))
         n += 1
+    # distance keys with an observer: aircraft a few hundred metres apart around whole kilometres (judged by the oracle alone:
+    # the model has no haversine and orders d/D by a constant)
+    import props.common as pc
+    for i in range(6 if tier == "quick" else 60):
+        olat, olon = r.uniform(-60, 60), r.uniform(-170, 170)
+        lines = []
+        for icao in r.sample(ICAOS, 6):
+            dist_km = r.choice([10, 11, 25]) + r.choice([0.05, 0.3, 0.45, 0.55, 0.7, 0.95])
+            lat = olat + (dist_km / 111.195) * r.choice([1, -1])
+            lines += pc.pair_frames(g, icao, lat, olon)
+        r.shuffle(lines)
+        o = {"i": "e", "u": -1, "o": r.choice(["d", "D", "sd", "aD"]), "O": ("%.5f,%.5f" % (olat, olon)).encode().hex().upper()}
+        cases.append(("C15-o%d" % n, "C", opts_str(o), seg(0, lines)))
+        n += 1
+    # rows that were swept and heard again shortly afterwards (--delete-after 0: every sweep empties the table): still one
+    # row per aircraft, still in key order
+    for i in range(6 if tier == "quick" else 60):
+        pool = r.sample(ICAOS, r.randint(2, 4))
+        lines = [g.f_short(r.choice([4, 5]), r.choice(pool)) for _ in range(r.randint(13, 40))]
+        o = {"i": "e", "u": -1, "o": r.choice(["x", "a", "s", "A"]), "d": 0}
+        cases.append(("C15-z%d" % n, "C", opts_str(o), seg(0, lines)))
+        n += 1
     return cases
+
+
+def skip_case(parts, impl, model):
+    return parts[0].startswith("C15-o")
 
 
 def key_of(letter, line, cols):
@@ -130,7 +156,7 @@ def oracle(parts, outcome, obs):
         ids = [int(l[:6], 16) for l in rows]
         if len(ids) != len(set(ids)):
             return "frame %d lists an aircraft twice" % k
-        if set(ids) != exp:
+        if "d" not in opts and set(ids) != exp:
             return "frame %d lists %s, table holds %s" % (k, sorted("%06X" % x for x in ids), sorted("%06X" % x for x in exp))
         if not letters:
             if ids != sorted(ids):
@@ -145,6 +171,26 @@ def oracle(parts, outcome, obs):
         seq = keys if last not in DESC else [(-x if not isinstance(x, tuple) else x) for x in keys]
         if last == "C":
             seq = [-x for x in keys]
+        if last in "dD":
+            # the cell shows the distance rounded to 0.1 km, the program compares whole kilometres (truncated): a cell
+            # reading x.0 may stand for key x-1 or x.  Monotone iff some consistent choice of keys is.
+            vals = []
+            for l in rows:
+                c = cell(l, cols, "DIST").strip()
+                v = float(c) if c else 0.0
+                vals.append(sorted({int(v - 0.05) if v >= 0.05 else 0, int(v + 0.05)}))
+            if last == "D":
+                vals = [[-x for x in reversed(c)] for c in vals]
+            prev, ok = None, True
+            for cand in vals:
+                pick = [x for x in cand if prev is None or x >= prev]
+                if not pick:
+                    ok = False
+                    break
+                prev = min(pick)
+            if not ok:
+                return "frame %d: key '%s' not monotone down the table: %s" % (k, last, keys)
+            continue
         if any(seq[i] > seq[i + 1] for i in range(len(seq) - 1)):
             return "frame %d: key '%s' not monotone down the table: %s" % (k, last, keys)
     return None
